@@ -2,6 +2,7 @@
    ops (space separated, fields comma separated, strings in hex, "-" = empty, "~" = NULL):
      N,d            d = xmpp_stanza_new
      n,s,name       xmpp_stanza_set_name          t,s,text   xmpp_stanza_set_text
+     T,s,bytes,size xmpp_stanza_set_text_with_size (first size bytes of an unterminated buffer)
      a,s,key,val    xmpp_stanza_set_attribute     d,s,key    xmpp_stanza_del_attribute
      s,s,v  i,s,v  o,s,v  f,s,v  y,s,v            set_ns / set_id / set_to / set_from / set_type
      c,p,c          xmpp_stanza_add_child (refused by the driver - "k" - when c already has a parent
@@ -294,6 +295,17 @@ int main(void)
                 }
                 printf("r%d", rc);
                 free(v);
+                break;
+            }
+            case 'T': { /* xmpp_stanza_set_text_with_size from an exact-size, unterminated buffer */
+                size_t len, size; unsigned char *raw;
+                a = slots[getslot(fld[1])];
+                if (!a || nf < 4) { putchar('k'); break; }
+                raw = vh_unhex(fld[2], &len);
+                size = (size_t)atoi(fld[3]);
+                if (size > len) size = len;
+                printf("r%d", xmpp_stanza_set_text_with_size(a, (const char *)raw, size));
+                free(raw);
                 break;
             }
             case 'a': {
